@@ -305,6 +305,9 @@ def _expect(c, st, body, pb):
         tempos.append((t, qpm))
       elif f == 'K':
         key_acc = _sig_accidentals(_key_sig(*v))
+        st.setdefault('inline_keys', []).append((t, v))
+      elif f == 'M':
+        st.setdefault('inline_meters', []).append((t, v))
   return notes, tempos
 
 
@@ -344,6 +347,11 @@ def h_tune(c):
       elif f == 'K':
         body.append(dict(kind='field', field='K', value=(form[1], form[2])))
         text += '[K:%s%s]' % (form[1], form[2])
+      elif f == 'M':
+        n2 = c.int('im_n', 1, 12)
+        d2 = c.choice('im_d', [2, 4, 8])
+        body.append(dict(kind='field', field='M', value=(n2, d2)))
+        text += '[M:%s/%s]' % (tx.num(n2), tx.num(d2))
       continue
     tok = _note(c, tx, i, letters, accs, octs, form)
     body.append(tok)
@@ -392,13 +400,19 @@ def h_tune(c):
       [c.And(c.approx(a.time, t_, 1e-9), c.approx(a.qpm, q_, 1e-9))
        for a, (t_, q_) in zip(ns.tempos, exp_tempos)] or [True])),
           'tempo = (beat / quarter) x rate at the time it is notated')
-  if st['meter'] is not None:
-    c.check(len(ns.time_signatures) == 1 and bool(c.And(
-        c.eq(ns.time_signatures[0].numerator, st['meter'][0]),
-        c.eq(ns.time_signatures[0].denominator, st['meter'][1]),
-        c.eq(ns.time_signatures[0].time, 0))), 'meter as in the header')
-  else:
-    c.check(len(ns.time_signatures) == 0, 'free meter: no time signature')
+  want_ts = ([(0, st['meter'])] if st['meter'] is not None else []) + list(
+      st.get('inline_meters', []))
+  c.check(len(ns.time_signatures) == len(want_ts) and bool(c.And(
+      [c.And(c.eq(a.numerator, m_[0]), c.eq(a.denominator, m_[1]),
+             c.approx(a.time, t_, 1e-9))
+       for a, (t_, m_) in zip(ns.time_signatures, want_ts)] or [True])),
+          'meters as in the header and the inline [M:] fields, at their times '
+          '(none for free meter)')
+  want_ks = [(0, st['key'])] + list(st.get('inline_keys', []))
+  c.check(len(ns.key_signatures) == len(want_ks) and bool(c.And(
+      [c.approx(a.time, t_, 1e-9) for a, (t_, _) in
+       zip(ns.key_signatures, want_ks)])), 'one key signature per K: field, '
+                                             'at its time')
   tonic, mode = st['key']
   KS = pb.NoteSequence.KeySignature
   c.check(len(ns.key_signatures) >= 1 and bool(c.And(
@@ -580,6 +594,8 @@ def jobs(tier):
       accs=[None], octs=[''], unit='frac')
   add('h_tune', notes=['none', ['K', 'A', ''], 'none'], key=['F', ''],
       letters=['C', 'B'], accs=[None], octs=[''])
+  add('h_tune', notes=['k', ['M'], 'none'], key=['C', ''], letters=['C'],
+      accs=[None], octs=[''], meter='C', unit='frac')
   # repeats: the notated order after expand_section_groups
   base = dict(key=['C', ''], letters=['C', 'E', 'G'], accs=[None], octs=[''])
   add('h_tune', notes=['|:', 'k', 'none', ':|', 'none'],
